@@ -1,1 +1,2 @@
 pub mod chaos;
+pub mod driver;
